@@ -18,7 +18,7 @@ from harness import runs, runcommon
 from harness.drive import f2b
 
 ID = "C12"
-THEOREM_MODULES = ["JF.Props.C12"]
+THEOREM_MODULES = ["JF.Props.C12", "JF.Props.C12Chain"]
 COMPONENTS = ["comp2"]
 ASSUMPTIONS = [
     "theorems (JF.C12.run_rootConsistent, step_good, dipole/water_initial_good): exact (rational) reading of "
